@@ -1,21 +1,23 @@
-import DL.Lemmas.CFSound4
+import DL.Lemmas.CFSound4b
 
 /-! Soundness invariant: `do-while`, `for`, `for-in/of`. -/
 namespace DL.CF
 
-theorem doWhile_n (p : Nat) (body : Stmt) (test : Kids) (tt : Bool) :
-    (Stmt.compl [] (.doWhileS p body test tt)).n =
-      (((((body.compl []).n || (body.compl []).c) && !tt)) || (body.compl []).b) ∧
-    (Stmt.compl [] (.doWhileS p body test tt)).b = false ∧ (Stmt.compl [] (.doWhileS p body test tt)).c = false := by
-  have hany : ∀ l : List Id, (l.any fun _ => false) = false := by intro l; induction l <;> simp_all
-  simp [Stmt.compl, goesRound, hany]
+theorem doWhile_n (ls : List Id) (p : Nat) (body : Stmt) (test : Kids) (tt : Bool) :
+    (Stmt.compl ls (.doWhileS p body test tt)).n = ((goesRound ls (body.compl []) && !tt) || (body.compl []).b) ∧
+    (Stmt.compl ls (.doWhileS p body test tt)).b = false ∧ (Stmt.compl ls (.doWhileS p body test tt)).c = false ∧
+    ((Stmt.compl ls (.doWhileS p body test tt)).hasCl = true → (body.compl []).hasCl = true) := by
+  refine ⟨by simp [Stmt.compl], by simp [Stmt.compl], by simp [Stmt.compl], ?_⟩
+  intro h
+  simp only [Stmt.compl] at h
+  simpa using loopCompl_hasCl _ _ _ h
 
-theorem doWhileTail_ok (live tt : Bool) (body : Stmt) (x b' : A) (hb : PostS live body x b') :
-    TailOK live (((((body.compl []).n || (body.compl []).c) && !tt)) || (body.compl []).b) body.pos [] b'
+theorem doWhileTail_ok (live tt : Bool) (ls : List Id) (body : Stmt) (x b' : A) (hb : PostS live [] body x b') :
+    TailOK live ((goesRound ls (body.compl []) && !tt) || (body.compl []).b) body.pos [] b'
       (doWhileTail tt body.isDeclOrExpr body.pos b') := by
   unfold doWhileTail
   simp only
-  have hsf := @stmtEnd_forced body.isDeclOrExpr b'.info body.pos
+  have hsf := @stmtEnd_forced' body.isDeclOrExpr b'.info body.pos
   generalize stmtEnd body.isDeclOrExpr b'.info body.pos = er at hsf
   by_cases h1 : (isForcedEnd er && !(b'.sc.foundBreak == some none) && !b'.sc.foundContinue) = true
   · simp only [h1, if_true]
@@ -23,18 +25,22 @@ theorem doWhileTail_ok (live tt : Bool) (body : Stmt) (x b' : A) (hb : PostS liv
     rcases her : er with _ | e
     · rw [her] at h1; simp at h1
     · simp only
-      refine ⟨fun q hq _ => markAsEnd_info_other _ _ _ _ hq, fun q => by simp, by simp, by simp, ⟨e, rfl⟩, ?_, by simp⟩
+      refine ⟨fun q hq _ => markAsEnd_info_other _ _ _ _ hq, fun q => by simp, by simp, by simp, by simp, ⟨e, rfl⟩, ?_, by simp⟩
       intro _
       have hbk := not_break_dead hb h1.1.2
       have hct := not_continue_dead hb h1.2
-      have hnn := hb.p4 (stops_of_forced (hsf h1.1.1).1)
-      revert hbk hct hnn
-      cases live <;> cases (body.compl []).n <;> cases (body.compl []).b <;> cases (body.compl []).c <;> simp
+      have hnn := hb.p4 (hsf h1.1.1).1 (stops_of_forced (hsf h1.1.1).2)
+      have hcl := not_cl_dead hb h1.2
+      cases live with
+      | false => rfl
+      | true =>
+        simp only [Bool.true_and] at hbk hct hnn hcl ⊢
+        simp [goesRound, hbk, hct, hnn, any_of_not_hasCl _ _ hcl]
   · simp only [h1, Bool.false_eq_true, if_false]
     by_cases h2 : (tt && b'.sc.foundBreak.isNone) = true
     · simp only [h2, if_true]
       simp only [Bool.and_eq_true] at h2
-      refine ⟨fun q hq _ => markAsEnd_info_other _ _ _ _ hq, fun q => by simp, by simp, by simp, ⟨_, rfl⟩, ?_, by simp⟩
+      refine ⟨fun q hq _ => markAsEnd_info_other _ _ _ _ hq, fun q => by simp, by simp, by simp, by simp, ⟨_, rfl⟩, ?_, by simp⟩
       intro _
       have hnb : (b'.sc.foundBreak == some none) = false := by
         cases hfb : b'.sc.foundBreak with
@@ -43,34 +49,44 @@ theorem doWhileTail_ok (live tt : Bool) (body : Stmt) (x b' : A) (hb : PostS liv
       have := not_break_dead hb hnb
       rw [h2.1]; simpa using this
     · simp only [h2, Bool.false_eq_true, if_false]
-      exact ⟨fun q hq _ => markAsEnd_info_other _ _ _ _ hq, fun q => by simp, by simp, by simp, ⟨_, rfl⟩, by simp, by simp⟩
+      exact ⟨fun q hq _ => markAsEnd_info_other _ _ _ _ hq, fun q => by simp, by simp, by simp, by simp, ⟨_, rfl⟩, by simp, by simp⟩
 
-theorem doWhile_ok (live : Bool) (p : Nat) (body : Stmt) (test : Kids) (tt : Bool) (a : A) (ht : test.flat = true)
-    (hpre : Pre live (p :: body.positions) a)
-    (ih : ∀ a0, Pre live body.positions a0 → PostS live body a0 (visitStmt body a0)) :
-    PostS live (.doWhileS p body test tt) a (visitStmt (.doWhileS p body test tt) a) := by
-  have hnd := List.nodup_cons.mp hpre.nodup
-  have hpbp : p ≠ body.pos := fun e => hnd.1 (e ▸ body.pos_mem)
+theorem doWhile_t (ls : List Id) (p : Nat) (body : Stmt) (test : Kids) (tt : Bool)
+    (h : (Stmt.compl ls (.doWhileS p body test tt)).t = true) :
+    (body.compl []).t = true ∨ (goesRound ls (body.compl []) && !tt && test.mayThrow) = true := by
+  simp only [Stmt.compl, loopCompl_t, union_t, guard_t, abrupt_t, testCompl_t] at h
+  revert h; cases tt <;> cases test.mayThrow <;> cases (body.compl []).t <;> cases goesRound ls (body.compl []) <;> simp
+
+theorem doWhileAfter_mayThrow (p bp : Nat) (a : A) : (doWhileAfter p bp a).sc.mayThrow = a.sc.mayThrow := by
+  unfold doWhileAfter; split <;> simp
+
+theorem doWhile_ok (live : Bool) (ls : List Id) (p : Nat) (body : Stmt) (test : Kids) (tt : Bool) (a : A)
+    (hpre : Pre live (p :: (test.positions ++ body.positions)) a)
+    (ihk : ∀ x, PreK test.positions x → PostK test.upos test.positions test.inner test.mayThrow x (visitKids test x))
+    (ih : ∀ a0, Pre live body.positions a0 → PostS live [] body a0 (visitStmt body a0)) :
+    PostS live ls (.doWhileS p body test tt) a (visitStmt (.doWhileS p body test tt) a) := by
+  have hsp := Split.of hpre.nodup
+  have hpbp : p ≠ body.pos := fun e => hsp.pb (e ▸ body.pos_mem)
   have hv : visitStmt (.doWhileS p body test tt) a =
       visitKids test (doWhileAfter p body.pos
         (withChild .loop body.pos (fun x => doWhileTail tt body.isDeclOrExpr body.pos (visitStmt body x)) (flagA a p .other))) := by
     simp [visitStmt, flagA]
   rw [hv]
-  obtain ⟨hn, hb0, hc0⟩ := doWhile_n p body test tt
+  obtain ⟨hn, hb0, hc0, hl0⟩ := doWhile_n ls p body test tt
   have hc := loopCore live _ p body.pos body [] (doWhileTail tt body.isDeclOrExpr body.pos) (flagA a p .other) rfl
-    hpre.hs (fun q hq => by rw [flagA_endAt]; exact hpre.fresh q (List.mem_cons_of_mem _ hq)) hpre.nodup ih
-    (fun b' hb => doWhileTail_ok live tt body _ b' hb)
+    hpre.hs (fun q hq => by rw [flagA_endAt]; exact hpre.fresh q (List.mem_cons_of_mem _ (List.mem_append.mpr (Or.inr hq))))
+    hsp.pb hsp.ndb ih (fun b' hb => doWhileTail_ok live tt ls body _ b' hb)
   generalize withChild .loop body.pos (fun x => doWhileTail tt body.isDeclOrExpr body.pos (visitStmt body x)) (flagA a p .other) = r at hc
   -- the optional extra mark at `p`
   have hm : ∃ r2, doWhileAfter p body.pos r = r2 ∧ r2.sc.foundBreak = r.sc.foundBreak ∧ r2.sc.foundContinue = r.sc.foundContinue ∧
         (∀ q, r2.info.ur q = r.info.ur q) ∧ (∀ q, q ≠ p → r2.info q = r.info q) ∧
-        (stopsEnd r2.sc.end_ = true → (live && (Stmt.compl [] (.doWhileS p body test tt)).n) = false) ∧
-        (stopsEnd (r2.info.endAt p) = true → (live && (Stmt.compl [] (.doWhileS p body test tt)).n) = false) := by
+        (stopsEnd r2.sc.end_ = true → (live && (Stmt.compl ls (.doWhileS p body test tt)).n) = false) ∧
+        (stopsEnd (r2.info.endAt p) = true → (live && (Stmt.compl ls (.doWhileS p body test tt)).n) = false) := by
     unfold doWhileAfter
     rcases her : r.info.endAt body.pos with _ | ⟨rr, t, i⟩ | _ | _
     · refine ⟨r, rfl, rfl, rfl, fun _ => rfl, fun _ _ => rfl, fun h => by rw [hn]; exact hc.stop h, ?_⟩
       intro h; rw [hc.atP (by simp), flagA_endAt, hpre.fresh p (by simp)] at h; simp at h
-    · have hdead : (live && (Stmt.compl [] (.doWhileS p body test tt)).n) = false := by
+    · have hdead : (live && (Stmt.compl ls (.doWhileS p body test tt)).n) = false := by
         rw [hn]; exact hc.bpForced (by rw [her]; rfl)
       exact ⟨_, rfl, by simp, by simp, fun q => by simp, fun q hq => markAsEnd_info_other _ _ _ _ hq,
         fun _ => hdead, fun _ => hdead⟩
@@ -79,170 +95,64 @@ theorem doWhile_ok (live : Bool) (p : Nat) (body : Stmt) (test : Kids) (tt : Boo
     · refine ⟨r, rfl, rfl, rfl, fun _ => rfl, fun _ _ => rfl, fun h => by rw [hn]; exact hc.stop h, ?_⟩
       intro h; rw [hc.atP (by simp), flagA_endAt, hpre.fresh p (by simp)] at h; simp at h
   obtain ⟨r2, hr2, hfb2, hfc2, hur2, hinfo2, hstop2, hp42⟩ := hm
+  have hmt2 : r2.sc.mayThrow = r.sc.mayThrow := by rw [← hr2]; exact doWhileAfter_mayThrow _ _ _
   rw [hr2]
-  have hs := visitKids_flat test r2 ht
-  generalize visitKids test r2 = fin at hs
-  refine ⟨⟨?_, ?_, ?_, ?_, ?_, ?_, ?_, ?_⟩, ?_⟩
-  · intro hst; rw [hs.end_] at hst; exact hstop2 hst
+  have hrk : ∀ q, q ∈ test.positions → r2.info q = (flagA a p .other).info q := fun q hq => by
+    rw [hinfo2 q (fun e => hsp.pk (e ▸ hq))]
+    exact hc.frame q (by simp only [List.mem_cons, not_or]; exact ⟨fun e => hsp.pk (e ▸ hq), fun h => hsp.disj q hq h⟩) (by simp)
+  have hprek : PreK test.positions r2 := by
+    refine ⟨fun q hq => ?_, hsp.ndk⟩
+    rw [endAt_eq_of_info_eq (hrk q hq), flagA_endAt]
+    exact hpre.fresh q (List.mem_cons_of_mem _ (List.mem_append.mpr (Or.inl hq)))
+  have hk := ihk r2 hprek
+  generalize visitKids test r2 = fin at hk
+  have htu : ∀ q, q ∈ test.upos → q ≠ p ∧ q ∉ body.positions := fun q hq =>
+    ⟨fun e => hsp.pk (e ▸ Kids.upos_sub test q hq), fun h => hsp.disj q (Kids.upos_sub test q hq) h⟩
+  have hbu : ∀ q, q ∈ body.upos → q ≠ p ∧ q ∉ test.positions := fun q hq =>
+    ⟨fun e => hsp.pb (e ▸ Stmt.upos_sub body q hq), fun h => hsp.disj q h (Stmt.upos_sub body q hq)⟩
+  refine ⟨⟨?_, ?_, ?_, ?_, ?_, ?_, ?_, ?_, ?_, ?_, ?_⟩, ?_⟩
+  · intro hst; rw [hk.end_] at hst; exact hstop2 hst
   · simp [hb0]
   · simp [hc0]
-  · intro hh; rw [hs.fb, hfb2, hc.fbk]; exact hh
-  · intro hh; rw [hs.fc, hfc2]; exact hc.fc hh
-  · unfold FB; rw [hs.fb, hfb2, hc.fbk]; exact hpre.fb
+  · intro hh; rw [hk.fb, hfb2, hc.fbk]; exact hh
+  · intro hh; apply hk.fc; rw [hfc2]; exact hc.fc hh
+  · intro hh
+    apply hk.fc; rw [hfc2]; apply hc.fcBody
+    revert hh hl0; cases live <;> cases (Stmt.compl ls (.doWhileS p body test tt)).hasCl <;> simp
   · intro q hq hu
-    rw [hs.info, hur2] at hu
-    simp only [Stmt.positions] at hq
-    rcases List.mem_cons.mp hq with rfl | hqb
-    · rw [hc.urp] at hu
+    simp only [Stmt.upos, List.mem_cons, List.mem_append] at hq
+    simp only [Stmt.reach]
+    rcases hq with rfl | hqt | hqb
+    · rw [ur_eq_of_info_eq (hk.frame q hsp.pk), hur2, hc.urp] at hu
       have := own_pos_dead hpre q .other _ rfl hu
       simp [this]
-    · have hne : q ≠ p := fun e => hnd.1 (e ▸ hqb)
+    · simp [(htu q hqt).1, body.reach_false q (htu q hqt).2]
+    · rw [ur_eq_of_info_eq (hk.frame q (hbu q hqb).2), hur2] at hu
       have := hc.p3 q hqb hu
-      simp only [Stmt.reach]
-      revert this; cases live <;> simp [hne]
+      revert this; cases live <;> simp [(hbu q hqb).1]
+  · intro q hq hu
+    simp only [Stmt.upos, List.mem_cons, List.mem_append] at hq
+    simp only [Stmt.inner]
+    rcases hq with rfl | hqt | hqb
+    · simp [Kids.inner_false test q hsp.pk, body.inner_false q hsp.pb]
+    · simp [hk.p3 q hqt hu, body.inner_false q (htu q hqt).2]
+    · rw [ur_eq_of_info_eq (hk.frame q (hbu q hqb).2), hur2] at hu
+      simp [hc.p3i q hqb hu, Kids.inner_false test q (hbu q hqb).2]
   · intro q hq
-    simp only [Stmt.positions] at hq
-    have hqp : q ≠ p := by intro e; exact hq (by simp [e])
-    rw [hs.info, hinfo2 q hqp, hc.frame q hq (by simp)]
-    exact flagA_other a p .other q hqp
-  · intro hst
+    simp only [Stmt.positions, List.mem_cons, List.mem_append, not_or] at hq
+    rw [hk.frame q hq.2.1, hinfo2 q hq.1, hc.frame q (by simp only [List.mem_cons, not_or]; exact ⟨hq.1, hq.2.2⟩) (by simp)]
+    exact flagA_other a p .other q hq.1
+  · intro hh; apply hk.mt; rw [hmt2]; exact hc.mt hh
+  · intro hh
+    simp only [Bool.and_eq_true] at hh
+    rcases doWhile_t ls p body test tt hh.2 with ht | ht
+    · apply hk.mt; rw [hmt2]; exact hc.tBody (by simp [hh.1, ht])
+    · simp only [Bool.and_eq_true, Bool.not_eq_true'] at ht
+      refine hk.pT (not_stops_of hstop2 ?_) ht.2
+      rw [hn]; simp [hh.1, ht.1.1, ht.1.2]
+  · intro _ hst
     simp only [Stmt.pos] at hst
-    rw [endAt_eq_of_info_eq (congrFun hs.info p)] at hst
+    rw [endAt_eq_of_info_eq (hk.frame p hsp.pk)] at hst
     exact hp42 hst
-
-/-! ### `for` -/
-theorem for_n (p : Nat) (i u t : Kids) (hasTest tt : Bool) (body : Stmt) :
-    (Stmt.compl [] (.forS p i u t hasTest tt body)).n = ((hasTest && !tt) || (body.compl []).b) ∧
-    (Stmt.compl [] (.forS p i u t hasTest tt body)).b = false ∧ (Stmt.compl [] (.forS p i u t hasTest tt body)).c = false := by
-  simp [Stmt.compl]
-
-theorem forTail_ok (live hasTest tt : Bool) (p : Nat) (body : Stmt) (x b' : A) (hb : PostS live body x b') :
-    TailOK live ((hasTest && !tt) || (body.compl []).b) body.pos [p] b' (forTail p body.pos body.isDeclOrExpr hasTest tt b') := by
-  unfold forTail
-  by_cases hent : forEnters hasTest tt b' = true
-  · -- the loop is entered unconditionally and cannot be left by `break`
-    rw [if_pos hent]
-    have hdead : (live && ((hasTest && !tt) || (body.compl []).b)) = false := by
-      simp only [forEnters, Bool.and_eq_true, Bool.not_eq_true', Bool.or_eq_true] at hent
-      have := not_break_dead hb hent.1
-      rcases hent.2 with h | h
-      · simp only [h]; simpa using this
-      · rw [h]; simpa using this
-    refine ⟨?_, fun q => by simp, by simp, by simp, ?_, fun _ => hdead, fun _ _ _ _ _ => hdead⟩
-    · intro q _ hq; exact markAsEnd_info_other _ _ _ _ (by simpa using hq)
-    · unfold markAsEnd
-      rcases hbe : b'.sc.end_ with _ | ⟨r, t, i⟩ | _ | _ <;> simp [hbe]
-  · rw [if_neg hent]
-    refine ⟨fun q hq _ => markAsEnd_info_other _ _ _ _ hq, fun q => by simp, by simp, by simp, ⟨_, rfl⟩, by simp, ?_⟩
-    intro q hq hqbp hst hnone
-    simp only [setEnd_info] at hst
-    rw [markAsEnd_endAt_other _ _ _ _ hqbp, hnone] at hst
-    simp at hst
-
-theorem for_ok (live : Bool) (p : Nat) (i u t : Kids) (hasTest tt : Bool) (body : Stmt) (a : A)
-    (hi : i.flat = true) (hu : u.flat = true) (ht : t.flat = true)
-    (hpre : Pre live (p :: body.positions) a)
-    (ih : ∀ a0, Pre live body.positions a0 → PostS live body a0 (visitStmt body a0)) :
-    PostS live (.forS p i u t hasTest tt body) a (visitStmt (.forS p i u t hasTest tt body) a) := by
-  have hnd := List.nodup_cons.mp hpre.nodup
-  have hv : visitStmt (.forS p i u t hasTest tt body) a =
-      withChild .loop body.pos (fun x => forTail p body.pos body.isDeclOrExpr hasTest tt (visitStmt body x))
-        (visitKids t (visitKids u (visitKids i (flagA a p .other)))) := by
-    simp [visitStmt, flagA]
-  rw [hv]
-  have hs1 := ((visitKids_flat i (flagA a p .other) hi).trans (visitKids_flat u _ hu)).trans (visitKids_flat t _ ht)
-  generalize visitKids t (visitKids u (visitKids i (flagA a p .other))) = a1 at hs1
-  have he1 : a1.sc.end_ = a.sc.end_ := hs1.end_
-  have hb1 : a1.sc.foundBreak = a.sc.foundBreak := hs1.fb
-  have hc1 : a1.sc.foundContinue = a.sc.foundContinue := hs1.fc
-  have hfresh1 : ∀ q, a1.info.endAt q = a.info.endAt q := fun q => by
-    rw [endAt_eq_of_info_eq (congrFun hs1.info q), flagA_endAt]
-  obtain ⟨hn, hb0, hc0⟩ := for_n p i u t hasTest tt body
-  have hc := loopCore live _ p body.pos body [p] (forTail p body.pos body.isDeclOrExpr hasTest tt) a1 rfl
-    (fun h => hpre.hs (by rw [← he1]; exact h))
-    (fun q hq => by rw [hfresh1]; exact hpre.fresh q (List.mem_cons_of_mem _ hq)) hpre.nodup ih
-    (fun b' hb => forTail_ok live hasTest tt p body _ b' hb)
-  generalize withChild .loop body.pos (fun x => forTail p body.pos body.isDeclOrExpr hasTest tt (visitStmt body x)) a1 = r at hc
-  refine ⟨⟨?_, ?_, ?_, ?_, ?_, ?_, ?_, ?_⟩, ?_⟩
-  · intro hst; rw [hn]; exact hc.stop hst
-  · simp [hb0]
-  · simp [hc0]
-  · intro hh; rw [hc.fbk, hb1]; exact hh
-  · intro hh; exact hc.fc (by rw [hc1]; exact hh)
-  · unfold FB; rw [hc.fbk, hb1]; exact hpre.fb
-  · intro q hq hu'
-    simp only [Stmt.positions] at hq
-    rcases List.mem_cons.mp hq with rfl | hqb
-    · rw [hc.urp] at hu'
-      have := own_pos_dead hpre q .other _ (by rw [hs1.info]) hu'
-      simp [this]
-    · have hne : q ≠ p := fun e => hnd.1 (e ▸ hqb)
-      have := hc.p3 q hqb hu'
-      simp only [Stmt.reach]
-      revert this; cases live <;> simp [hne]
-  · intro q hq
-    simp only [Stmt.positions] at hq
-    have hqp : q ≠ p := by intro e; exact hq (by simp [e])
-    rw [hc.frame q hq (by simpa using hqp), hs1.info]
-    exact flagA_other a p .other q hqp
-  · intro hst
-    simp only [Stmt.pos] at hst
-    rw [hn]
-    exact hc.pExtra (by simp) hst (by rw [hfresh1]; exact hpre.fresh p (by simp))
-
-/-! ### `for-in` / `for-of` -/
-theorem forInOf_ok (live : Bool) (p : Nat) (l r : Kids) (body : Stmt) (a : A)
-    (hl : l.flat = true) (hr : r.flat = true)
-    (hpre : Pre live (p :: body.positions) a)
-    (ih : ∀ a0, Pre live body.positions a0 → PostS live body a0 (visitStmt body a0)) :
-    PostS live (.forInOf p l r body) a (visitStmt (.forInOf p l r body) a) := by
-  have hnd := List.nodup_cons.mp hpre.nodup
-  have hv : visitStmt (.forInOf p l r body) a =
-      withChild .loop body.pos (fun x => forInOfTail body.pos (visitStmt body x))
-        (visitKids r (visitKids l (flagA a p .other))) := by
-    simp [visitStmt, flagA]
-  rw [hv]
-  have hs1 := (visitKids_flat l (flagA a p .other) hl).trans (visitKids_flat r _ hr)
-  generalize visitKids r (visitKids l (flagA a p .other)) = a1 at hs1
-  have he1 : a1.sc.end_ = a.sc.end_ := hs1.end_
-  have hb1 : a1.sc.foundBreak = a.sc.foundBreak := hs1.fb
-  have hc1 : a1.sc.foundContinue = a.sc.foundContinue := hs1.fc
-  have hfresh1 : ∀ q, a1.info.endAt q = a.info.endAt q := fun q => by
-    rw [endAt_eq_of_info_eq (congrFun hs1.info q), flagA_endAt]
-  have hn : (Stmt.compl [] (.forInOf p l r body)).n = true ∧ (Stmt.compl [] (.forInOf p l r body)).b = false ∧
-      (Stmt.compl [] (.forInOf p l r body)).c = false := by simp [Stmt.compl]
-  have hc := loopCore live true p body.pos body [] (forInOfTail body.pos) a1 rfl
-    (fun h => hpre.hs (by rw [← he1]; exact h))
-    (fun q hq => by rw [hfresh1]; exact hpre.fresh q (List.mem_cons_of_mem _ hq)) hpre.nodup ih
-    (fun b' _ => by
-      unfold forInOfTail
-      exact ⟨fun q hq _ => markAsEnd_info_other _ _ _ _ hq, fun q => by simp, by simp, by simp, ⟨_, rfl⟩, by simp, by simp⟩)
-  generalize withChild .loop body.pos (fun x => forInOfTail body.pos (visitStmt body x)) a1 = r' at hc
-  refine ⟨⟨?_, ?_, ?_, ?_, ?_, ?_, ?_, ?_⟩, ?_⟩
-  · intro hst; rw [hn.1]; exact hc.stop hst
-  · simp [hn.2.1]
-  · simp [hn.2.2]
-  · intro hh; rw [hc.fbk, hb1]; exact hh
-  · intro hh; exact hc.fc (by rw [hc1]; exact hh)
-  · unfold FB; rw [hc.fbk, hb1]; exact hpre.fb
-  · intro q hq hu'
-    simp only [Stmt.positions] at hq
-    rcases List.mem_cons.mp hq with rfl | hqb
-    · rw [hc.urp] at hu'
-      have := own_pos_dead hpre q .other _ (by rw [hs1.info]) hu'
-      simp [this]
-    · have hne : q ≠ p := fun e => hnd.1 (e ▸ hqb)
-      have := hc.p3 q hqb hu'
-      simp only [Stmt.reach]
-      revert this; cases live <;> simp [hne]
-  · intro q hq
-    simp only [Stmt.positions] at hq
-    have hqp : q ≠ p := by intro e; exact hq (by simp [e])
-    rw [hc.frame q hq (by simp), hs1.info]
-    exact flagA_other a p .other q hqp
-  · intro hst
-    simp only [Stmt.pos] at hst
-    rw [hc.atP (by simp), hfresh1, hpre.fresh p (by simp)] at hst
-    simp at hst
 
 end DL.CF
